@@ -193,38 +193,7 @@ func propC09(c *Ctx) {
 	}
 
 	// D5 mask matching
-	d5 := c.Rule("D5", "K1 loop exits", "Contains/Match true only after all bytes matched", 6)
-	for _, spec := range []struct{ name, loopAtom, byteAtom, lenAtom string }{
-		{"(*tcpip.Subnet).Contains", "(phi{(1 + loop) | 0} < builtin:len($1))", "($0.address[phi{(1 + loop) | 0}] == ($0.mask[phi{(1 + loop) | 0}] & $1[phi{(1 + loop) | 0}]))", "(builtin:len($0.address) == builtin:len($1))"},
-		{"(*tcpip.Route).Match", "(phi{(1 + loop) | 0} < builtin:len($0.Destination))", "($0.Destination[phi{(1 + loop) | 0}] == ($0.Mask[phi{(1 + loop) | 0}] & $1[phi{(1 + loop) | 0}]))", "(builtin:len($0.Destination) == builtin:len($1))"},
-	} {
-		fn := c.Fn(d5, spec.name)
-		if fn == nil {
-			continue
-		}
-		atoms := map[string]bool{}
-		for _, e := range CondEdges(fn) {
-			atoms[e.Atom] = true
-		}
-		for _, a := range []string{spec.loopAtom, spec.byteAtom, spec.lenAtom} {
-			c.Check(atoms[a], d5, spec.name+"/atom:"+a, c.P.Pos(fn.Pos()), "tests "+a, "the function no longer tests "+a)
-		}
-		for _, s := range Sites(fn) {
-			if s.Kind != "return" {
-				continue
-			}
-			switch s.Args[0] {
-			case "true":
-				ok := GuardedBy(fn, s.Instr.Block(), AtomIs(false, Exactly(spec.loopAtom))) && GuardedBy(fn, s.Instr.Block(), AtomIs(true, Exactly(spec.lenAtom)))
-				c.Check(ok, d5, spec.name+"/return-true", c.pos(s.Instr), "true only after equal lengths and loop exhaustion", "returns true before all bytes were compared or with different lengths")
-			case "false":
-				ok := GuardedBy(fn, s.Instr.Block(), AnyOf(AtomIs(false, Exactly(spec.byteAtom)), AtomIs(false, Exactly(spec.lenAtom))))
-				c.Check(ok, d5, spec.name+"/return-false", c.pos(s.Instr), "false on a length or byte mismatch", "returns false although lengths and bytes matched")
-			default:
-				c.Bad(d5, spec.name+"/return-other:"+s.Args[0], c.pos(s.Instr), "result is not a constant decided by the loop")
-			}
-		}
-	}
+	maskedMatchRule(c, "D5")
 	d6 := c.Rule("D6", "K5 closed-world call-site table", "registrations and unregistrations name the same recorded scope and id", 15)
 	c.CheckCallers(d6, []string{"(*stack.Stack).RegisterTransportEndpoint", "(*stack.Stack).UnregisterTransportEndpoint"}, []CallerSpec{
 		{Fn: "(*ping.endpoint).Close", Target: "(*stack.Stack).UnregisterTransportEndpoint", Args: []string{"$0.stack", "$0.regNICID", "[$0.netProto]", "$0.transProto", "$0.id"}, Why: "ping endpoints (outside the properties) unregister their recorded scope"},
@@ -271,4 +240,43 @@ func propC09(c *Ctx) {
 		{Fn: "(*stack.NIC).DeliverNetworkPacket", Target: "(*stack.NIC).getRef", Args: []string{"$0", "$4", "iface:stack.NetworkProtocol.ParseAddresses($0.stack.networkProtocols[$4]#0, buffer.VectorisedView.First($5))#1"}, Why: "inbound: the endpoint that owns the destination address"},
 	})
 
+}
+
+// maskedMatchRule: Subnet.Contains and Route.Match return true only after the
+// lengths agreed and EVERY byte satisfied dest[i] == addr[i] & mask[i], and
+// false only on a mismatch (shared by C09/D5 and C06/E6: the route lookup
+// relies on Match).
+func maskedMatchRule(c *Ctx, id string) {
+	d5 := c.Rule(id, "K1 loop exits", "Contains/Match true only after all bytes matched", 6)
+	for _, spec := range []struct{ name, loopAtom, byteAtom, lenAtom string }{
+		{"(*tcpip.Subnet).Contains", "(phi{(1 + loop) | 0} < builtin:len($1))", "($0.address[phi{(1 + loop) | 0}] == ($0.mask[phi{(1 + loop) | 0}] & $1[phi{(1 + loop) | 0}]))", "(builtin:len($0.address) == builtin:len($1))"},
+		{"(*tcpip.Route).Match", "(phi{(1 + loop) | 0} < builtin:len($0.Destination))", "($0.Destination[phi{(1 + loop) | 0}] == ($0.Mask[phi{(1 + loop) | 0}] & $1[phi{(1 + loop) | 0}]))", "(builtin:len($0.Destination) == builtin:len($1))"},
+	} {
+		fn := c.Fn(d5, spec.name)
+		if fn == nil {
+			continue
+		}
+		atoms := map[string]bool{}
+		for _, e := range CondEdges(fn) {
+			atoms[e.Atom] = true
+		}
+		for _, a := range []string{spec.loopAtom, spec.byteAtom, spec.lenAtom} {
+			c.Check(atoms[a], d5, spec.name+"/atom:"+a, c.P.Pos(fn.Pos()), "tests "+a, "the function no longer tests "+a)
+		}
+		for _, s := range Sites(fn) {
+			if s.Kind != "return" {
+				continue
+			}
+			switch s.Args[0] {
+			case "true":
+				ok := GuardedBy(fn, s.Instr.Block(), AtomIs(false, Exactly(spec.loopAtom))) && GuardedBy(fn, s.Instr.Block(), AtomIs(true, Exactly(spec.lenAtom)))
+				c.Check(ok, d5, spec.name+"/return-true", c.pos(s.Instr), "true only after equal lengths and loop exhaustion", "returns true before all bytes were compared or with different lengths")
+			case "false":
+				ok := GuardedBy(fn, s.Instr.Block(), AnyOf(AtomIs(false, Exactly(spec.byteAtom)), AtomIs(false, Exactly(spec.lenAtom))))
+				c.Check(ok, d5, spec.name+"/return-false", c.pos(s.Instr), "false on a length or byte mismatch", "returns false although lengths and bytes matched")
+			default:
+				c.Bad(d5, spec.name+"/return-other:"+s.Args[0], c.pos(s.Instr), "result is not a constant decided by the loop")
+			}
+		}
+	}
 }
